@@ -349,6 +349,34 @@ class Program:
             raise AnalysisIncomplete('module %s not found' % name)
         return m
 
+    def unit(self, m):
+        """the module m together with the package modules that only m (or another member) imports: private helper
+        modules a maintainer has split off m.  Rules that speak of "the functions of the zonal module" mean this unit."""
+        cache = self.__dict__.setdefault('_units', {})
+        if m.name in cache:
+            return cache[m.name]
+        importers = {}
+        for a in self.modules.values():
+            for imp in a.imports.values():
+                tgt = imp[1]
+                if tgt in self.modules and imp[0] == 'attr' and (tgt + '.' + imp[2]) in self.modules:
+                    tgt = tgt + '.' + imp[2]
+                if tgt in self.modules and tgt != a.name:
+                    importers.setdefault(tgt, set()).add(a.name)
+        members = {m.name}
+        changed = True
+        while changed:
+            changed = False
+            for name, who in importers.items():
+                if name not in members and who and who <= members and name != PKG:
+                    members.add(name)
+                    changed = True
+        cache[m.name] = members
+        return members
+
+    def same_unit(self, m, other):
+        return other is m or other.name in self.unit(m)
+
     def func(self, modshort, name):
         m = self.module(modshort)
         f = m.funcs.get(name)
